@@ -36,6 +36,8 @@ def field(shape, kind, dtype):
     t = np.arange(int(np.prod(shape)), dtype=np.int64).reshape(shape)
     if kind == "one":
         re, im = np.ones(shape), np.zeros(shape)
+    elif kind == "ramp":        # the linear index itself: local minima and maxima differ from rank to rank
+        re, im = t.astype(float), np.zeros(shape)
     else:
         re, im = (t % 7 - 3).astype(float), (t % 5 - 2).astype(float)
     return (re + 1j * im) if dtype is complex else re
@@ -88,7 +90,7 @@ def minmax_history_job(comm, shape, nprocs, eta_i, out):
     eta = [np.array(x, dtype=float) for x in eta_i]
     h = getLayoutHandler(comm, STD, list(nprocs), eta)
     g = Grid(eta, [None] * 4, h, "flux_surface", comm, allocateSaveMemory=True)
-    g.getAllData()[:] = sl.local_block(field(shape, "tok", float), h.getLayout("flux_surface"))
+    g.getAllData()[:] = sl.local_block(field(shape, "ramp", float), h.getLayout("flux_surface"))
     fixes = ([(0, shape[0] - 1)], [(1, 0)], [(2, shape[2] // 2)], [(3, 0)], [(0, 0), (3, shape[3] - 1)], [])
     root = comm.Get_size() - 1
 
@@ -134,7 +136,7 @@ def phi_job(comm, shape, nprocs, eta_i, kind, out):
         out[rk].append(("diag", name, {"l2": l2(eta, lay).l2NormSquared(g)}, tuple(int(x) for x in lay.ranks)))
 
 
-def collector_job(comm, shape, nprocs, eta_i, S, steps, tfloat, out):
+def collector_job(comm, shape, nprocs, eta_i, S, steps, tfloat, out, kind="tok"):
     from pygyro.model.grid import Grid
     from pygyro.model.layout import LayoutSwapper, getLayoutHandler
     from pygyro.diagnostics.diagnostic_collector import DiagnosticCollector
@@ -143,7 +145,7 @@ def collector_job(comm, shape, nprocs, eta_i, S, steps, tfloat, out):
     h = getLayoutHandler(comm, {"flux_surface": STD["flux_surface"], "v_parallel": STD["v_parallel"], "poloidal": STD["poloidal"]},
                          list(nprocs), eta)
     f = Grid(eta, [None] * 4, h, "v_parallel", comm)
-    f.getAllData()[:] = sl.local_block(field(shape, "tok", float), h.getLayout("v_parallel"))
+    f.getAllData()[:] = sl.local_block(field(shape, kind, float), h.getLayout("v_parallel"))
     sw = LayoutSwapper(comm, GROUPS3, [list(nprocs), nprocs[0], nprocs[1]], eta[:3], "v_parallel_2d")
     phi = Grid(eta[:3], [None] * 3, sw, "v_parallel_2d", comm, dtype=np.complex128)
     phi.getAllData()[:] = sl.local_block(field(shape[:3], "tok", complex), sw.getLayout("v_parallel_2d"))
@@ -182,7 +184,7 @@ def plotrank_job(comm, shape, nprocs, eta_i, out):
         h = getLayoutHandler(lc, STD, list(nprocs), eta)
     g = Grid(eta, [None] * 4, h, "v_parallel", comm)
     if rk != 0:
-        g.getAllData()[:] = sl.local_block(field(shape, "tok", float), h.getLayout("v_parallel"))
+        g.getAllData()[:] = sl.local_block(field(shape, "ramp", float), h.getLayout("v_parallel"))
     for fix in ([], [(0, 1)], [(2, 0)]):
         if fix:
             mn, mx = g.getMin(0, fix[0][0], fix[0][1]), g.getMax(0, fix[0][0], fix[0][1])
@@ -213,7 +215,7 @@ def run(ctx):
         eta = grids(rng, shape)
         n = int(np.prod(nprocs))
         sched = dict(policy=rng.choice(["asc", "desc", "random", "rr"]), seed=rng.randint(0, 10 ** 6), eager=rng.random() < 0.5)
-        for kind, dtype in (("tok", float), ("tok", complex), ("one", float)):
+        for kind, dtype in (("tok", float), ("tok", complex), ("one", float), ("ramp", float)):
             out = [[] for _ in range(n)]
             res = MPI.run(n, diag_job, args=(shape, nprocs, eta, kind, dtype, out), **sched)
             m0 = {"shape": shape, "nprocs": nprocs, "eta": eta, "field": kind, "dtype": np.dtype(dtype).name, "schedule": sched}
@@ -221,7 +223,7 @@ def run(ctx):
                 events.append({"k": "diag", "q": "l2", "kind": kind, "cplx": dtype is complex, "sh": shape, "r": eta[0], "v": eta[3], "total": 0, "exact": False, "ok": False, "err": res.describe()})
                 meta.append(dict(m0, what="diag_job"))
                 continue
-            for name in STD:
+            for name in (STD if kind != "ramp" else ()):          # (the ramp field serves the extrema only: its sums exceed TLC's integers)
                 for q in ("l2", "l1", "npart", "ke"):
                     tot = sum(v[2][q] for o in out for v in o if v[0] == "diag" and v[1] == name)
                     ti, ex = to_int(tot, SCALE[q])
@@ -230,7 +232,7 @@ def run(ctx):
                     else:
                         events.append({"k": "diag", "q": q, "kind": kind, "cplx": dtype is complex, "sh": shape, "r": eta[0], "v": eta[3], "total": ti, "exact": ex, "ok": True})
                     meta.append(dict(m0, what=q, layout=name))
-            if kind == "tok":
+            if kind == "ramp":       # every slice of the ramp has its own minimum and maximum, and every rank its own local extrema
                 for o in out:
                     for v in o:
                         if v[0] == "minmax":
@@ -243,11 +245,11 @@ def run(ctx):
         out = [[] for _ in range(n)]
         res = MPI.run(n, minmax_history_job, policy=sched["policy"], seed=sched["seed"], eager=sched["eager"], args=(shape, nprocs, eta, out))
         if not res.ok:
-            events.append({"k": "minmax", "kind": "tok", "sh": shape, "fix": [], "mn": 0, "mx": 0, "ok": False, "err": res.describe()})
+            events.append({"k": "minmax", "kind": "ramp", "sh": shape, "fix": [], "mn": 0, "mx": 0, "ok": False, "err": res.describe()})
             meta.append(dict(m0, what="minmax-history"))
         for o in out:
             for v in o:
-                events.append({"k": "minmax", "kind": "tok", "sh": shape, "fix": [[a + 1, b] for a, b in v[3]],
+                events.append({"k": "minmax", "kind": "ramp", "sh": shape, "fix": [[a + 1, b] for a, b in v[3]],
                                "mn": int(round(v[4])) if np.isfinite(v[4]) else 0, "mx": int(round(v[5])) if np.isfinite(v[5]) else 0,
                                "ok": bool(np.isfinite(v[4]) and np.isfinite(v[5]))})
                 meta.append(dict(m0, what="minmax-history", stage=v[1], root=v[2], fix=v[3]))
@@ -290,6 +292,13 @@ def run(ctx):
                         events.append({"k": "minmax", "kind": "tok", "sh": shape, "fix": [], "mn": safe_int(v[1]["mn"]),
                                        "mx": safe_int(v[1]["mx"]), "ok": True})
                         meta.append(dict(m0, what="reduce-minmax"))
+            # the reduced extrema on a field whose local extrema differ from rank to rank
+            out2 = [[] for _ in range(n)]
+            res2 = MPI.run(n, collector_job, args=(shape, nprocs, eta, S, steps, tfloat, out2, "ramp"), **sched)
+            for v in out2[0]:
+                if v[0] == "reduce":
+                    events.append({"k": "minmax", "kind": "ramp", "sh": shape, "fix": [], "mn": safe_int(v[1]["mn"]), "mx": safe_int(v[1]["mx"]), "ok": bool(res2.ok)})
+                    meta.append(dict(m0, what="reduce-minmax on a ramp"))
             if not res.ok and not any(v[0] == "slot" and not v[4] for o in out for v in o):
                 events.append({"k": "slot", "step": 0, "S": S, "written": [], "ok": False, "err": res.describe()})
                 meta.append(dict(m0, what="collector_job"))
@@ -297,11 +306,11 @@ def run(ctx):
         out = [[] for _ in range(n + 1)]
         res = MPI.run(n + 1, plotrank_job, args=(shape, nprocs, eta, out), **sched)
         for v in out[0]:
-            events.append({"k": "minmax", "kind": "tok", "sh": shape, "fix": [[a + 1, b] for a, b in v[3]], "mn": int(round(v[4])) if np.isfinite(v[4]) else 0,
+            events.append({"k": "minmax", "kind": "ramp", "sh": shape, "fix": [[a + 1, b] for a, b in v[3]], "mn": int(round(v[4])) if np.isfinite(v[4]) else 0,
                            "mx": int(round(v[5])) if np.isfinite(v[5]) else 0, "ok": bool(res.ok and np.isfinite(v[4]) and np.isfinite(v[5]))})
             meta.append({"shape": shape, "nprocs": nprocs, "what": "minmax-with-plot-only-rank", "fix": v[3], "schedule": sched})
         if not res.ok:
-            events.append({"k": "minmax", "kind": "tok", "sh": shape, "fix": [], "mn": 0, "mx": 0, "ok": False, "err": res.describe()})
+            events.append({"k": "minmax", "kind": "ramp", "sh": shape, "fix": [], "mn": 0, "mx": 0, "ok": False, "err": res.describe()})
             meta.append({"shape": shape, "nprocs": nprocs, "what": "minmax-with-plot-only-rank", "schedule": sched})
     rej, _ = ctx.validate_trace("C17Trace", events, what="diagnostics / reductions recorded from the real classes (%d)" % len(events))
     for j, (e, m) in enumerate(zip(events, meta), 1):
